@@ -214,8 +214,8 @@ def build3(m):
                    requires=['PT_OK(self)', 'KIDS_OK(self)', 'self.parse_end <= len(self.string)'],
                    call_asserts={MOD + ':make_tokens': [
                        # the children (and the raw text between them) tile exactly the parse group
-                       ('start == self.parse_start and end == self.parse_end and same(tokens, self.children) '
-                        'and string == self.string', 'C16')]},
+                       ('arg_start == self.parse_start and arg_end == self.parse_end and same(arg_tokens, self.children) '
+                        'and arg_string == self.string', 'C16')]},
                    modifies=['G:INLINE_PHASE', 'N:Token.children'], allow_exc=['CustomTokenError'],
                    prop=['C16']))
 
